@@ -89,7 +89,8 @@ CLAIMED = {
                      "backtracking never panics; operations run from inside a closure keep the mirror invariant and never panic; an edge loop terminates once the closure stops "
                      "lengthening the walked list and a traversal terminates when the closure adds neither nodes nor edges (fuel_bound suffices). That the implementation's "
                      "iterators hold no borrow/lock across the body is checked by the correspondence: every single operation injected at every invocation index of every loop "
-                     "kind on small graphs, all four flavours, RefCell panics / lock probe (guard gdsl_verif) / watchdog.",
+                     "kind on small graphs, plus container operations / nested searches / comparisons / sizeof called from inside the closure, edge loops driven through five "
+                     "consumers of the Iterator protocol (for, map+collect, extend, explicit next()+size_hint(), chain), all four flavours, RefCell panics / lock probe (guard gdsl_verif) / watchdog.",
                 tech="Coq proof: preservation lemma family for the machines under arbitrary callbacks + instrumented-log erasure + differential correspondence with scripted closures", ref="DESIGN.md §5 C20"),
     "C15": dict(text="The model has one set of definitions per flavour class and every correspondence run compares BOTH twins with it; C15's own check runs the union of all case "
                      "families (node histories, all searches/orderings with all options, containers, scc, serde, ownership, scripted closures, comparisons) on each plain "
@@ -100,7 +101,7 @@ CLAIMED = {
                      "thread holds at most one guard; no reachable configuration is deadlocked; programs without isolate never panic or poison a lock; connect/try_connect/query "
                      "programs mirror as multisets at quiescence; the explicit-guard and atomic semantics agree; single-connect threads whose connects form a forest over the adjacency lists are serialisable (unbounded; order of every list included). The full property (no panic, serialisable) is REFUTED in the "
                      "faithful model by six concrete schedules, each reproduced on real threads: mutations are two or more separately locked critical sections (D11) -> eight "
-                     "known-finding classes. The check replays the model's schedules of ~1.1k small scenarios (thorough: all schedules of all 2-thread single-call scenarios on 2 "
+                     "known-finding classes. The check replays the model's schedules of ~1.6k small scenarios (thorough: all schedules of all 2-thread single-call scenarios on 2 "
                      "nodes) on real threads under a cooperative scheduler at lock points (hook gdsl_verif), plus free-running stress; a hang, deadlock, guard held at a lock point, "
                      "or a panic / non-serialisable outcome outside the listed classes is a VIOLATION.",
                 tech="Coq proof (lock discipline, deadlock freedom, restricted panic freedom and quiescent mirror; refutations by vm_compute) + schedule exploration by the model replayed on real threads",
